@@ -34,9 +34,10 @@ BlindCases == { [sk |-> Shape(sk), tampers |-> SetToSeq(Tampers(sk))] : sk \in S
 \* all-explicit table ---------------------------------------------------------------------------
 ExplMax == atoi(IOEnv.GEN_EXPL_OUTS)
 EIns  == UNION { [1..n -> [asset : {"A", "B"}, v : 1..2]] : n \in 1..2 }
-\* zero values are tried on every script class: standard, OP_RETURN, empty, exactly the maximal size (still spendable), one byte more
+\* zero values are tried on every script class: standard, OP_RETURN, empty, exactly the maximal size (still spendable), one byte more,
+\* and scripts whose first opcode merely makes execution fail (OP_RESERVED 0x50, an undefined opcode 0xba): not "provably unspendable"
 EOutKinds == [asset : {"A", "B", "N", "T"}, v : 1..2, script : {"std", "unspendable"}]
-             \cup [asset : {"A", "B", "N", "T"}, v : {0}, script : {"std", "unspendable", "empty", "big10000", "big10001"}]
+             \cup [asset : {"A", "B", "N", "T"}, v : {0}, script : {"std", "unspendable", "empty", "big10000", "big10001", "resv50", "resvba"}]
 EOuts == UNION { [1..n -> EOutKinds] : n \in 1..(IF ExplMax > 2 THEN 2 ELSE ExplMax) }
 \* three outputs (thorough): one input, without the second plain asset, to stay below TLC's bound on the size of an enumerated set
 EOuts3 == IF ExplMax > 2 THEN [1..3 -> { k \in EOutKinds : k.asset # "B" }] ELSE {}
